@@ -1,9 +1,73 @@
 import Mp4ff.Model.Aac
+import Mp4ff.Model.Esds
 import Mp4ff.Driver.Util
 namespace Mp4ff.Driver.C18
 open Mp4ff Mp4ff.Aac Mp4ff.Driver
 
 def b01 (b : Bool) : String := if b then "1" else "0"
+
+/-! canonical text of an esds descriptor tree (the Go side renders the real structs the same way, c18model.go) -/
+section esds
+open Mp4ff.Esds
+
+def showDsi : Option (Nat × Bytes) → String
+  | none => "none"
+  | some (f, x) => s!"{f}:{toHex x}"
+
+mutual
+def showDesc : Desc → String
+  | .dc h others => s!"dc[sfs={h.sfs} ot={h.objType} st={h.streamType} buf={h.bufSize} max={h.maxBr} avg={h.avgBr} dsi={showDsi h.dsi} oth=({showDescs others}) unk={toHex h.unk}]"
+  | .dsi f x => s!"dsi[{f}:{toHex x}]"
+  | .sl f c m => s!"sl[{f}:{c}:{toHex m}]"
+  | .raw t f x => s!"raw[{t}:{f}:{toHex x}]"
+def showDescs : List Desc → String
+  | [] => ""
+  | [d] => showDesc d
+  | d :: ds => showDesc d ++ "," ++ showDescs ds
+end
+
+def showSl : Option (Nat × Nat × Bytes) → String
+  | none => "none"
+  | some (f, c, m) => s!"{f}:{c}:{toHex m}"
+
+def showEsds (e : Esds) : String :=
+  let d := e.es
+  s!"v={e.version} f={e.flags} es[sfs={d.sfs} id={d.esId} fl={d.flags} dep={d.dependsOn} url={toHex d.url} ocr={d.ocr} {showDesc (.dc d.dc d.dcOthers)} sl={showSl d.sl} oth=({showDescs d.others}) unk={toHex d.unk}] size={sizeEsds e}"
+
+def showErr : Err → String
+  | .tagES => "tagES"
+  | .acc .eof => "read"
+  | .acc .neg => "neg"
+  | .tooSmall => "tooSmall"
+  | .useES => "useES"
+  | .exceeds t => s!"exceeds{t}"
+  | .sizeField .long => "sizeField"
+  | .sizeField .overflow => "sizeOverflow"
+  | .dcShort => "dcShort"
+  | .dcFail e => "dc>" ++ showErr e
+  | .tooFarDC => "tooFarDC"
+  | .tooFarES => "tooFarES"
+  | .dsiLeft => "dsiLeft"
+  | .slZero => "slZero"
+  | .expectedDC => "expectedDC"
+  | .sizeDiff => "sizeDiff"
+  | .fuel => "FUEL"
+
+def esdsDispatch (op : String) (args : List String) : Option String :=
+  match op, args with
+  | "esds.dec", [h] => (fromHex h).map fun bs =>
+      match decodeEsds bs with
+      | .error e => "err:" ++ showErr e
+      | .ok e => showEsds e
+  | "esds.rt", [h] => (fromHex h).map fun bs =>
+      match decodeEsds bs with
+      | .error e => "err:" ++ showErr e
+      | .ok e => toHex (encodeEsdsBox e)
+  | "esds.create", [h] => (fromHex h).map fun asc =>
+      let e := createEsds asc
+      s!"{toHex (encodeEsdsBox e)} size={sizeEsds e}"
+  | _, _ => none
+end esds
 
 def dispatch (op : String) (args : List String) : Option String :=
   match op, args with
@@ -21,6 +85,6 @@ def dispatch (op : String) (args : List String) : Option String :=
       match decodeADTS bs with
       | .error _ => "err"
       | .ok (a, off) => s!"{a.id} {a.objectType} {a.samplingFrequencyIndex} {a.channelConfig} {a.headerLength} {a.payloadLength} {a.bufferFullness} off={off}"
-  | _, _ => none
+  | _, _ => esdsDispatch op args
 
 end Mp4ff.Driver.C18
